@@ -228,25 +228,89 @@ func checkMaskWrittenWhole(c *core.Ctx) {
 			for _, b := range fn.Blocks {
 				for _, in := range b.Instrs {
 					cc := core.CallOf(in)
-					if cc == nil || !cc.IsInvoke() || cc.Method.Name() != "SetVCC" || len(cc.Args) != 1 {
+					if cc == nil || !cc.IsInvoke() {
 						continue
 					}
-					phi, ok := cc.Args[0].(*ssa.Phi)
+					var acc ssa.Value
+					target := ""
+					switch {
+					case cc.Method.Name() == "SetVCC" && len(cc.Args) == 1:
+						acc, target = cc.Args[0], "VCC"
+					case cc.Method.Name() == "WriteOperand" && len(cc.Args) == 3:
+						if f := operandFieldName(cc.Args[0]); f == "Dst" || f == "SDst" {
+							acc, target = cc.Args[2], f
+						}
+					}
+					phi, ok := acc.(*ssa.Phi)
 					if !ok {
 						continue
 					}
-					// the loop-carried accumulator: find its initial values (edges that are not themselves derived from the phi)
-					st.Instances++
-					c.MarkAnalysed(fn)
-					bad := false
+					// a lane-mask accumulator: a phi that is carried around a loop through OR / AND-NOT updates
+					derived := map[ssa.Value]bool{}
+					var dep func(v ssa.Value, d int) bool
+					dep = func(v ssa.Value, d int) bool {
+						if v == phi {
+							return true
+						}
+						if d > 6 {
+							return false
+						}
+						if r, ok := derived[v]; ok {
+							return r
+						}
+						derived[v] = false
+						r := false
+						switch x := v.(type) {
+						case *ssa.BinOp:
+							if x.Op == token.OR || x.Op == token.AND_NOT || x.Op == token.AND || x.Op == token.XOR {
+								r = dep(x.X, d+1) || dep(x.Y, d+1)
+							}
+						case *ssa.Phi:
+							for _, e := range x.Edges {
+								if dep(e, d+1) {
+									r = true
+								}
+							}
+						}
+						derived[v] = r
+						return r
+					}
+					carried := false
 					for _, e := range phi.Edges {
-						if call, ok := e.(*ssa.Call); ok && call.Call.IsInvoke() && call.Call.Method.Name() == "VCC" {
-							bad = true
+						if e != phi && dep(e, 0) {
+							carried = true
 						}
 					}
-					st.Ob(!bad)
-					if bad {
+					if !carried {
+						continue
+					}
+					if target != "VCC" {
+						// only masks: the accumulator is updated with single-bit terms (1 << lane)
+						if bt, ok := phi.Type().Underlying().(*types.Basic); !ok || bt.Kind() != types.Uint64 {
+							continue
+						}
+					}
+					st.Instances++
+					c.MarkAnalysed(fn)
+					bad := ""
+					for _, e := range phi.Edges {
+						if e == phi || dep(e, 0) {
+							continue
+						}
+						if k, isC := core.ConstUint(e); isC && k == 0 {
+							continue
+						}
+						if call, ok := e.(*ssa.Call); ok && call.Call.IsInvoke() && call.Call.Method.Name() == "VCC" {
+							bad = "the old VCC"
+						} else if bad == "" {
+							bad = "a value other than 0 (" + e.String() + ")"
+						}
+					}
+					st.Ob(bad == "")
+					if bad == "the old VCC" && target == "VCC" {
 						c.ReportAt("R03.28", fn, in.Pos(), "mask-accumulated-from-old-vcc", core.FuncName(fn)+" builds the new VCC starting from the old VCC and only updates the bits of active lanes: with EXEC = 0x1 and VCC = 0xFF00 before, v_addc_co_u32 leaves VCC = 0xFF00 | carry instead of just the carry; the GCN3 sibling and the ISA (\"VCC is always fully written\") give zero for inactive lanes")
+					} else if bad != "" {
+						c.ReportAt("R03.28", fn, in.Pos(), "mask-accumulated-from-nonzero:"+target, core.FuncName(fn)+" accumulates the lane mask it writes to "+target+" starting from "+bad+": the bits of lanes that are switched off in EXEC are not 0 in the result (the ISA writes the mask whole; the e32 form and the other ALU give 0), and a later s_or_b64 exec, exec, mask re-enables lanes that were never active")
 					}
 				}
 			}
